@@ -75,7 +75,7 @@ def ops12 : List (String × Op) := [
     let deriv ← field j "deriv" >>= asBool
     let pts ← field j "pts" >>= asList (asList asFloatBits)
     match Handles.byName.lookup name with
-    | none => .error s!"unknown handle {name}"
+    | none => .ok Json.null   -- no such handle in the current source
     | some e =>
       let e := if deriv then e.D else e
       .ok (listJ (fun (pt : List Float) =>
